@@ -50,20 +50,29 @@ def site (name : String) (params : List String) (entries : List (List String)) (
     let model := [toString (compareTipIndexes params es)] ++ [if unrooted then "unrooted" else toString (mergeDisjointLoop params es)]
     judge (tags ++ tagIf (specSameTips mine params) "same-tips" ++ tagIf (specDisjoint mine params) "disjoint") impl spec model "CompareTipIndexes/Merge"
   | "rename" =>
-    if impl == ["err"] then ⟨.pass, "rename-err" :: tags, ""⟩ else
-    let index := (params.zipIdx).filter (fun e => e.1 != "")
-    let names : Nat → String := fun i => (params.drop i).headD ""
-    let after := renameLoop index names es
-    let model := "ok" :: (List.range params.length).map after
-    judge (tags ++ tagIf (nodupVals index && nodupKeys index) "index-injective") impl ("ok" :: specRename params es) model "Rename"
+    -- params: "T:name" / "I:name" per node in Nodes() order (tip / inner)
+    let isTip := params.map (·.startsWith "T:")
+    let names := params.map (fun x => (x.drop 2).toString)
+    let model := match renameFull names isTip es with
+      | none => ["err"]
+      | some after => "ok" :: after
+    let dupNames := (names.filter (· != "")).eraseDups.length != (names.filter (· != "")).length
+    let after := specRename names es
+    let tipsAfter := (after.zip isTip).filterMap (fun e => if e.2 then some e.1 else none)
+    let spec := if dupNames || tipsAfter.eraseDups.length != tipsAfter.length then ["err"] else "ok" :: after
+    judge (tags ++ tagIf (impl == ["err"]) "rename-err" ++ tagIf dupNames "dup-node-names" ++
+      tagIf (es.any (fun e => es.any (fun f => f.1 == e.2))) "chained-map") impl spec model "Rename"
   | "acrstates" =>
     judge tags impl (specSortedLines (fun k v => some (k ++ "," ++ v ++ "\n")) es) (acrStateLines es) "acr --out-states"
   | "namemap" =>
     judge tags impl (specSortedLines (fun k v => some (k ++ "\t" ++ v ++ "\n")) es) (nameMapLines es) "rename map file"
   | "comparetips" =>
     let bs := es.map (fun e => (e.1, true))
-    judge tags impl (specSortedLines (fun k _ => if params.contains k then none else some ("(Tree 0) > " ++ k ++ "\n")) bs)
-      (compareTipsLines params bs) "compare tips"
+    -- impl: the whole standard output; Spec: the > lines in key order between the < lines and the count
+    let gt := specSortedLines (fun k _ => if params.contains k then none else some ("(Tree 0) > " ++ k ++ "\n")) bs
+    let spec := params.filterMap (fun t => if (es.map (·.1)).contains t then none else some ("(Tree 0) < " ++ t ++ "\n")) ++ gt ++
+      ["(Tree 0) = " ++ toString (params.filter (fun t => (es.map (·.1)).contains t)).length ++ "\n"]
+    judge tags impl spec (compareTipsOutput params bs) "compare tips"
   | "mutations" =>
     let eems := params.headD "" == "eems"
     let ms := entries.map toMut
@@ -87,6 +96,16 @@ def site (name : String) (params : List String) (entries : List (List String)) (
     let spec := chars.map (fun c => String.ofList [c, '='] ++
       (match stands c with | [] => "*" | [x] => String.ofList [x] | xs => "{" ++ String.ofList xs ++ "}"))
     judge (tags ++ tagIf (chars.contains 'X' && !nucl) "has-X" ++ tagIf nucl "nucleotides" ++ tagIf (nodupKeys c2i) "nodupkeys-c2i") impl spec model "asr tip states"
+  | "nexusframe" =>
+    -- entries: per tree, [tree index, tip names in AllTipNames order…]; params: [translate?]
+    let trees := entries.map (·.drop 1)
+    let translate := params.headD "" == "translate"
+    let model := nexusFrameLines translate trees
+    let st := nexusLabels trees
+    ⟨if model == impl then .pass else .tie,
+     ["site:nexusframe"] ++ tagIf (trees.length ≥ 2) "nontrivial" ++ tagIf translate "translate" ++
+       tagIf (nodupKeys st.1) "translate-map-nodupkeys" ++ tagIf (st.1.any (fun e => st.1.any (fun f => f.1 == e.2))) "chained-translate-map",
+     if model == impl then "" else "WriteNexus frame: model gives " ++ showStrList model ++ " but the implementation wrote " ++ showStrList impl⟩
   | "append" =>
     -- params: the receiver map "key=site"; entries: the appended map in Go's iteration order
     let parseKV (x : String) : String × Mut := match x.splitOn "=" with
@@ -132,6 +151,17 @@ def handle (op : String) (f : List String) : Verdict :=
     else if !staleProofs.isEmpty || !staleSources.isEmpty then
       ⟨.tie, tags, "proved/reviewed entries that no longer exist in the source: " ++ " | ".intercalate (staleProofs ++ staleSources)⟩
     else ⟨.pass, tags, ""⟩
+  | "seeduse", [resS] =>
+    match parseStrList resS with
+    | some res =>
+      let differing := res.filter (·.endsWith "=differs")
+      let tags := ["seeduse", "random-templates:" ++ toString res.length, "seed-sensitive:" ++ toString differing.length] ++
+        tagIf (differing.length ≥ 5) "nontrivial"
+      -- the tie "the random source is seeded from --seed": at least half of the random templates must react to the seed
+      if 2 * differing.length < res.length then
+        ⟨.tie, tags, "most random templates give the same output for two different seeds (--seed not used?): " ++ " ".intercalate res⟩
+      else ⟨.pass, tags, ""⟩
+    | none => bad "C18.seeduse field"
   | "selftest", [gotS] =>
     match unescape gotS with
     | some got =>
